@@ -1,6 +1,8 @@
 -- root of the proof library: one module per property (theorems only) + helper lemmas
 import Proofs.C05
 import Proofs.C06
+import Proofs.C07
+import Proofs.C08
 import Proofs.C09
 import Proofs.C10
 import Proofs.C11
